@@ -5,23 +5,13 @@
 #![allow(static_mut_refs)]
 use super::*;
 use crate::dedupe::verif_dedupe as g;
-use crate::dedupe::verif_dedupe::{FS, MUTATIONS, WARNED};
-use std::os::unix::ffi::OsStrExt;
-
-fn std_slot(p: &std::path::Path) -> usize {
-    match p.as_os_str().as_bytes()[0] {
-        b'T' => g::T,
-        b'L' => g::L,
-        b'X' => g::X,
-        _ => g::M,
-    }
-}
+use crate::dedupe::verif_dedupe::{ghost_fs_unit, FS, MUTATIONS, WARNED};
 
 pub(crate) static mut TIMES_RESTORED: u32 = 0;
 pub(crate) static mut RESTORE_BEFORE_CLONE: bool = false;
 
 fn stub_reflink_overwrite(target: &std::path::Path, link: &std::path::Path) -> io::Result<()> {
-    let (s, d) = (std_slot(target), std_slot(link));
+    let (s, d) = (g::std_slot(target), g::std_slot(link));
     unsafe {
         if FS[s] == g::ABSENT {
             return Err(g::io_err()); // open(src) fails
@@ -44,8 +34,6 @@ fn stub_reflink_overwrite(target: &std::path::Path, link: &std::path::Path) -> i
     Ok(())
 }
 
-/// The real code falls back to `rename(X, L)` when cloning over L failed: X then holds a complete clone of L's
-/// original bytes, which `stub_unsafe_rename` moves back (value CLONE_L counts as the original bytes).
 fn stub_restore_metadata(_path: &std::path::Path, _metadata: &Metadata, _restore: Restore) -> io::Result<()> {
     unsafe {
         if FS[g::L] != g::CLONE_T {
@@ -72,20 +60,13 @@ fn reflink_post(ok: bool) {
         }
         assert!(FS[g::X] == g::ABSENT || WARNED, "C05.reflink.backup_removed_or_warned");
         assert!(FS[g::M] == g::ABSENT, "C02.execute_frame.nothing_else_created");
+        assert!(!g::UNCONTRACTED_FS_CALL, "C02.execute_frame.no_other_file_system_entry_point_used");
         kani::cover!(ok, "cover.ok");
         kani::cover!(!ok && MUTATIONS > 0, "cover.err_after_backup");
     }
 }
 
-#[kani::proof]
-#[kani::stub(alloc::fmt::format, g::stub_format)]
-#[kani::stub(crate::path::Path::display, g::stub_display)]
-#[kani::stub(FsCommand::temp_file, g::stub_temp_file)]
-#[kani::stub(FsCommand::unsafe_rename, g::stub_unsafe_rename)]
-#[kani::stub(FsCommand::remove, g::stub_remove)]
-#[kani::stub(reflink_overwrite, stub_reflink_overwrite)]
-#[kani::unwind(12)]
-fn c05_linux_reflink() {
+fn linux_reflink_body() {
     g::init(g::INV_REFLINK, true, false);
     let (src, dest) = (g::pm(b"T", 0), g::pm(b"L", 1));
     let r = linux_reflink(&src, &dest, &g::NullLog);
@@ -95,6 +76,8 @@ fn c05_linux_reflink() {
     std::mem::forget(dest);
     reflink_post(ok);
 }
+ghost_fs_unit!(wrappers, c05_linux_reflink, [(reflink_overwrite, stub_reflink_overwrite)], { linux_reflink_body() });
+ghost_fs_unit!(std, c05_linux_reflink_std, [(reflink_overwrite, stub_reflink_overwrite)], { linux_reflink_body() });
 
 fn reflink_cmd_harness(faults: bool, refusable: bool) -> (bool, Option<u64>, u64) {
     let (should_lock, len) = g::init(g::INV_REFLINK, faults, refusable);
@@ -108,18 +91,7 @@ fn reflink_cmd_harness(faults: bool, refusable: bool) -> (bool, Option<u64>, u64
     (should_lock, ok, len)
 }
 
-#[kani::proof]
-#[kani::stub(alloc::fmt::format, g::stub_format)]
-#[kani::stub(crate::path::Path::display, g::stub_display)]
-#[kani::stub(std::fs::Metadata::len, crate::file::verif_file::stub_metadata_len)]
-#[kani::stub(FsCommand::maybe_lock, g::stub_maybe_lock)]
-#[kani::stub(FsCommand::temp_file, g::stub_temp_file)]
-#[kani::stub(FsCommand::unsafe_rename, g::stub_unsafe_rename)]
-#[kani::stub(FsCommand::remove, g::stub_remove)]
-#[kani::stub(reflink_overwrite, stub_reflink_overwrite)]
-#[kani::stub(restore_metadata, stub_restore_metadata)]
-#[kani::unwind(12)]
-fn c05_execute_reflink() {
+fn execute_reflink_body() {
     let (_, ok, len) = reflink_cmd_harness(true, false);
     unsafe {
         assert!(!RESTORE_BEFORE_CLONE, "C05.reflink.metadata_restored_only_after_clone");
@@ -127,19 +99,12 @@ fn c05_execute_reflink() {
     reflink_post(ok.is_some());
     g::common_post(ok, len);
 }
-
-#[kani::proof]
-#[kani::stub(alloc::fmt::format, g::stub_format)]
-#[kani::stub(crate::path::Path::display, g::stub_display)]
-#[kani::stub(std::fs::Metadata::len, crate::file::verif_file::stub_metadata_len)]
-#[kani::stub(FsCommand::maybe_lock, g::stub_maybe_lock)]
-#[kani::stub(FsCommand::temp_file, g::stub_temp_file)]
-#[kani::stub(FsCommand::unsafe_rename, g::stub_unsafe_rename)]
-#[kani::stub(FsCommand::remove, g::stub_remove)]
-#[kani::stub(reflink_overwrite, stub_reflink_overwrite)]
-#[kani::stub(restore_metadata, stub_restore_metadata)]
-#[kani::unwind(12)]
-fn c20_lock_first_reflink() {
+ghost_fs_unit!(wrappers, c05_execute_reflink,
+    [(reflink_overwrite, stub_reflink_overwrite), (restore_metadata, stub_restore_metadata)], { execute_reflink_body() });
+ghost_fs_unit!(std, c05_execute_reflink_std,
+    [(reflink_overwrite, stub_reflink_overwrite), (restore_metadata, stub_restore_metadata)], { execute_reflink_body() });
+ghost_fs_unit!(wrappers, c20_lock_first_reflink,
+    [(reflink_overwrite, stub_reflink_overwrite), (restore_metadata, stub_restore_metadata)], {
     let (should_lock, ok, _) = reflink_cmd_harness(false, true);
     g::lock_post(should_lock, ok);
-}
+});
